@@ -47,6 +47,10 @@ fn write_cfg_file(dir: &str, name: &str) {
 #[derive(Debug, Clone, Serialize, Deserialize)]
 pub struct RidsCase {
     pub env: Env,
+    /// ask from a child that gave up root first (the answer depends on the arguments and the two variables, not on
+    /// who is asking)
+    #[serde(default)]
+    pub unprivileged: bool,
 }
 
 const HOMES: &[Option<&str>] = &[None, Some(""), Some("/home/u"), Some("/"), Some("/home/u/")];
@@ -268,9 +272,21 @@ const SUDO_VALUES: &[Option<&str>] = &[None, Some(""), Some("1234"), Some("0"), 
 pub fn check_rids(case: &RidsCase) -> CaseResult {
     let env = &case.env;
     let ids: Vec<(u32, u32)> = vec![(0, 0), (0, 1000), (1, 1), (1000, 1000), (1000, 0), (u32::MAX, u32::MAX)];
-    let reqs: Vec<Value> = ids.iter().map(|(u, g)| json!({"op":"getrids","uid":u,"gid":g})).collect();
+    let mut reqs: Vec<Value> = ids.iter().map(|(u, g)| json!({"op":"getrids","uid":u,"gid":g})).collect();
+    if case.unprivileged {
+        reqs.insert(0, json!({"op":"drop_privileges"}));
+    }
     let resp = match probe(env, &reqs) {
-        Ok(r) => r,
+        Ok(mut r) => {
+            if case.unprivileged {
+                let dropped = r.remove(0);
+                if dropped.get("ok").and_then(|x| x.as_u64()) != Some(65534) {
+                    ctx().inconclusive("the child could not give up root (not started as root?)");
+                    return Ok(());
+                }
+            }
+            r
+        },
         Err(e) => {
             ctx().inconclusive(&format!("envprobe child failed: {}", e));
             return Ok(());
@@ -327,7 +343,7 @@ fn xdg_env(idx: u64) -> Env {
 const XDG_SPACE: u64 = 5 * 81 * 1331 * 2;
 
 pub fn run(c: &Ctx) {
-    c.set_rule("one child process per configuration (env_clear + exactly the generated variables). (a) getters: cross-product HOME{unset,'',value,'/',value with a trailing separator} x XDG_{CONFIG,DATA,CACHE,STATE}_HOME{unset,'',value} x XDG_CONFIG_DIRS/XDG_DATA_DIRS/PATH{unset,'','/l1','/l1:/l2',':/l1::/l2:','/','/l1/:/:/l2//','/l1:/l1::/l1:/l2' (repeated entries are kept),'::' (only separators: the defaults),'/l1: /l2 :/l3',' ' (blanks belong to the entry: listed verbatim)} x XDG_RUNTIME_DIR{unset,value} = 1078110 (half of them with bystander variables TMPDIR, TMP, USER and a decoy name set - they must not matter) configurations (thorough: all; quick: seeded 4000 + corner cases). (b) vfs.config_dir(name): HOME x XDG_CONFIG_HOME {unset,value} x XDG_CONFIG_DIRS{unset,'','/l1','/l1:/l2',':/l1::/l2:'} x every subset of candidate directories containing the file x {flat name, name of three components}, on Memfs (built in the child) and on Stdfs (sandbox on tmpfs). (c) getrids: SUDO_UID x SUDO_GID in 12 values each (incl. ids above 2^31) x 6 (uid,gid) pairs. Oracle: reference functions written from the statement / XDG spec. Non-trivial = configuration with at least one variable set-but-empty or a list with empty segments, or a config_dir case whose first candidate lacks the file; distinct by configuration.");
+    c.set_rule("one child process per configuration (env_clear + exactly the generated variables). (a) getters: cross-product HOME{unset,'',value,'/',value with a trailing separator} x XDG_{CONFIG,DATA,CACHE,STATE}_HOME{unset,'',value} x XDG_CONFIG_DIRS/XDG_DATA_DIRS/PATH{unset,'','/l1','/l1:/l2',':/l1::/l2:','/','/l1/:/:/l2//','/l1:/l1::/l1:/l2' (repeated entries are kept),'::' (only separators: the defaults),'/l1: /l2 :/l3',' ' (blanks belong to the entry: listed verbatim)} x XDG_RUNTIME_DIR{unset,value} = 1078110 (half of them with bystander variables TMPDIR, TMP, USER and a decoy name set - they must not matter) configurations (thorough: all; quick: seeded 4000 + corner cases). (b) vfs.config_dir(name): HOME x XDG_CONFIG_HOME {unset,value} x XDG_CONFIG_DIRS{unset,'','/l1','/l1:/l2',':/l1::/l2:'} x every subset of candidate directories containing the file x {flat name, name of three components}, on Memfs (built in the child) and on Stdfs (sandbox on tmpfs). (c) getrids: SUDO_UID x SUDO_GID in 12 values each (incl. ids above 2^31) x 6 (uid,gid) pairs, the numeric SUDO_UID rows also asked from a child that gave up root first. Oracle: reference functions written from the statement / XDG spec. Non-trivial = configuration with at least one variable set-but-empty or a list with empty segments, or a config_dir case whose first candidate lacks the file; distinct by configuration.");
     c.assume("set-but-empty *_HOME / XDG_RUNTIME_DIR: value verbatim or spec default both admitted; HOME='' defaults: relative or rooted spelling admitted; PATH unset: totality only");
     // (a) getters
     let n_quick = 4000u64;
@@ -473,7 +489,11 @@ pub fn run(c: &Ctx) {
             let mut e = Env::new();
             set(&mut e, "SUDO_UID", u);
             set(&mut e, "SUDO_GID", g);
-            rid_cases.push(RidsCase { env: e });
+            rid_cases.push(RidsCase { env: e.clone(), unprivileged: false });
+            // the numeric pairs also from a process that is not root
+            if e.get("SUDO_UID").map(|v| !v.is_empty() && v.bytes().all(|b| b.is_ascii_digit())).unwrap_or(false) {
+                rid_cases.push(RidsCase { env: e, unprivileged: true });
+            }
         }
     }
     par_for(rid_cases.len() as u64, 2, |j| {
